@@ -3,31 +3,43 @@
    says exactly what survives: everything except (a) what the code drops by design - endpoints named "...", "..."
    actions, statements and REST parameters of pubsub events, all but the folded constraint of a field, which of
    Ref.Appname / Context.Appname / the current application a reference was resolved from, list-vs-element type,
-   tuple-without-fields vs. other kinds of type - and (b) what the model abstracts (payload attributes, annotation
-   values). Consequently two modules with the same rows have the same projection (rows_determine_projection).
+   tuple-without-fields vs. other kinds of type, the text of a return payload beyond what the payload reader extracts
+   (status, type resolved against the statement's application, modifiers as a set, name-value pairs as a dictionary),
+   an integer annotation value beyond the 53 bits of a float64 - and (b) what the model abstracts (payloads with a
+   backslash or "{"). Annotation values, the source contexts of every element and annotation (the Src relations) and the contents
+   of return rows ARE in the projection. Consequently two modules with the same rows have the same projection (rows_determine_projection).
    `rebuild` uses only the rows: their relation, their columns and - the slices being ordered - their order. *)
-From Coq Require Import List NArith ZArith PArith Bool Lia.
+From Coq Require Import String List NArith ZArith PArith Bool Lia.
 Import ListNotations.
 Require Import Verif.Base.Harness Verif.Relmod.Model Verif.Relmod.StmtProps Verif.Relmod.Run Verif.Relmod.SortProps.
 
 (* ---------- the projection ---------- *)
-Record pparam := { pp_name : name; pp_loc : name; pp_idx : Z; pp_opt : Z; pp_ty : ty; pp_attrs : attrs }.
-Record pfield := { pf_name : name; pf_nums : list Z (* optional :: length min, max, precision, scale *); pf_ty : ty; pf_attrs : attrs }.
+(* what survives of (Attrs, SourceContexts): the tags, per annotation in name order its name, value (XVal) and source
+   contexts (XSrcs), and the element's source contexts (XSrc first all, XNone when it has none) *)
+Record pattrs := { qa_tags : list name; qa_annos : list (name * xinfo * xinfo); qa_src : xinfo }.
+Record pparam := { pp_name : name; pp_loc : name; pp_idx : Z; pp_opt : Z; pp_ty : ty; pp_attrs : pattrs }.
+Record pfield := { pf_name : name; pf_nums : list Z (* optional :: length min, max, precision, scale *); pf_ty : ty; pf_attrs : pattrs }.
 Inductive pdef :=
 | PTuple (fs:list pfield) | PRelation (pk:list name) (fs:list pfield) | PAlias (t:ty)
 | PEnum (items:list name) (values:list Z) | POther.
-Inductive pitem := PRow (p:list N) (code:Z) (t:name) (rt:ty) | PTag (p:list N) (t:name) | PAnno (p:list N) (n:name).
+Inductive pitem :=
+| PRow (p:list N) (code:Z) (t:name) (ret:xinfo) | PTag (p:list N) (t:name) | PAnno (p:list N) (n:name) (v:xinfo)
+| PSrcAnno (p:list N) (n:name) (srcs:xinfo) | PSrc (p:list N) (srcs:xinfo).
 Inductive pelem :=
-| PMixin (n:appname) (a:attrs)
+| PMixin (n:appname) (a:pattrs)
 | PEp (names:list name (* name, long name, docstring, REST method, REST path, event name *)) (flags:list Z)
-      (src:appname) (a:attrs) (ps:list pparam) (stmts:list pitem)
-| PEvent (n:name) (ps:list pparam) (a:attrs)
-| PType (n doc:name) (opt:Z) (d:pdef) (a:attrs)
-| PView (n:name) (t:ty) (a:attrs).
-Record papp := { pa_name : appname; pa_long : name; pa_doc : name; pa_attrs : attrs; pa_elems : list pelem }.
+      (src:appname) (a:pattrs) (ps:list pparam) (stmts:list pitem)
+| PEvent (n:name) (ps:list pparam) (a:pattrs)
+| PType (n doc:name) (opt:Z) (d:pdef) (a:pattrs)
+| PView (n:name) (t:ty) (a:pattrs).
+Record papp := { pa_name : appname; pa_long : name; pa_doc : name; pa_attrs : pattrs; pa_elems : list pelem }.
 
-Definition cattrs (a:attrs) : attrs := {| a_tags := a_tags a; a_annos := sort_names (a_annos a) |}.
-Definition no_attrs : attrs := {| a_tags := []; a_annos := [] |}.
+Definition project_anno (an:anno) : name * xinfo * xinfo :=
+  (an_name an, XVal (attr_to_value (an_val an)), XSrcs (an_srcs an)).
+Definition project_src (l:list srcctx) : xinfo := match l with [] => XNone | s :: _ => XSrc s l end.
+Definition cattrs (a:attrs) : pattrs :=
+  {| qa_tags := a_tags a; qa_annos := map project_anno (sorted_by an_name (a_annos a)); qa_src := project_src (a_srcs a) |}.
+Definition no_attrs : pattrs := {| qa_tags := []; qa_annos := []; qa_src := XNone |}.
 
 Definition project_param (a:appname) (loc:name) (i:N) (p:param) : pparam :=
   {| pp_name := p_name p; pp_loc := param_loc loc p; pp_idx := Z.of_N i;
@@ -49,14 +61,16 @@ Definition project_def (a:appname) (d:tdef) : pdef :=
   | DOther => POther
   end.
 
-Definition project_item (a:appname) (it:sitem (list N)) : pitem :=
+Definition project_item (g:grammar) (sa:list str) (it:sitem (list N)) : pitem :=
   match it with
-  | IRow p c (t, rt) => PRow p c t (match rt with Some x => unpack_type a x | None => TyNil end)
+  | IRow p c (t, rt) => PRow p c t (match rt with Some x => ret_info g sa x | None => XNone end)
   | ITag p t => PTag p t
-  | IAnno p n => PAnno p n
+  | IAnno p n v => PAnno p n (XVal v)
+  | ISrcAnno p n l => PSrcAnno p n (XSrcs l)
+  | ISrc p s l => PSrc p (XSrc s l)
   end.
 
-Definition project_ep (a:appname) (e:endpoint) : pelem :=
+Definition project_ep (g:grammar) (a:appname) (sa:list str) (e:endpoint) : pelem :=
   if e_pubsub e then PEvent (e_name e) (project_params a n_empty (e_params e)) (cattrs (e_attrs e))
   else PEp [e_name e; e_long e; e_doc e;
             match e_rest e with Some (m, _, _, _) => m | None => n_empty end;
@@ -70,7 +84,7 @@ Definition project_ep (a:appname) (e:endpoint) : pelem :=
             | Some (_, _, url, query) => project_params a n_path url ++ project_params a n_query query
             | None => []
             end)
-           (map (project_item a) (ep_items_pure (e_stmts e))).
+           (map (project_item g sa) (ep_items_pure (e_stmts e))).
 
 Definition project_type (a:appname) (t:typedecl) : pelem :=
   PType (t_name t) (t_doc t) (zb (t_opt t)) (project_def a (t_def t)) (cattrs (t_attrs t)).
@@ -78,14 +92,14 @@ Definition project_view (a:appname) (v:view) : pelem := PView (v_name v) (parse_
 Definition project_mixin (m:appname * attrs) : pelem := PMixin (fst m) (cattrs (snd m)).
 
 Definition visible_ep (e:endpoint) : bool := negb (ep_skipped e).
-Definition project_app (ap:app) : papp :=
+Definition project_app (g:grammar) (ap:app) : papp :=
   let a := ap_name ap in
   {| pa_name := a; pa_long := ap_long ap; pa_doc := ap_doc ap; pa_attrs := cattrs (ap_attrs ap);
      pa_elems := map project_mixin (ap_mixins ap)
-                 ++ map (project_ep a) (filter visible_ep (sorted_by e_name (ap_eps ap)))
+                 ++ map (project_ep g a (ap_sname ap)) (filter visible_ep (sorted_by e_name (ap_eps ap)))
                  ++ map (project_type a) (sorted_by t_name (ap_types ap))
                  ++ map (project_view a) (sorted_by v_name (ap_views ap)) |}.
-Definition project (m:module) : list papp := map project_app m.
+Definition project (g:grammar) (m:module) : list papp := map (project_app g) m.
 
 (* ---------- reading rows ---------- *)
 Definition relin (L:list relname) (r:row) : bool := existsb (relname_eqb (r_rel r)) L.
@@ -93,8 +107,18 @@ Definition keep (L:list relname) (rs:list row) : list row := filter (relin L) rs
 Definition nm (k:nat) (r:row) : name := nth k (r_names r) 1%positive.
 Definition num (k:nat) (r:row) : Z := nth k (r_nums r) 0%Z.
 Definition last_name (r:row) : name := last (r_names r) 1%positive.
-Definition attrs_of (o:owner) (rs:list row) : attrs :=
-  {| a_tags := map last_name (keep [RTag o] rs); a_annos := map last_name (keep [RAnno o] rs) |}.
+(* annotation rows with the Src.Anno row that follows each (when there is one), read from the right *)
+Definition anno_step (r:row) (acc:option xinfo * list (name * xinfo * xinfo)) : option xinfo * list (name * xinfo * xinfo) :=
+  let '(pend, out) := acc in
+  match r_rel r with
+  | RSrcAnno _ => (Some (r_x r), out)
+  | _ => (None, (last_name r, r_x r, match pend with Some x => x | None => XSrcs [] end) :: out)
+  end.
+Definition decode_annos (l:list row) : list (name * xinfo * xinfo) := snd (fold_right anno_step (None, []) l).
+Definition attrs_of (o:owner) (rs:list row) : pattrs :=
+  {| qa_tags := map last_name (keep [RTag o] rs);
+     qa_annos := decode_annos (keep [RAnno o; RSrcAnno o] rs);
+     qa_src := match keep [RSrc o] rs with r :: _ => r_x r | [] => XNone end |}.
 
 (* header-led segments: (rows before the first header, [(header, rows up to the next header)]) *)
 Fixpoint segs (h:row -> bool) (l:list row) : list row * list (row * list row) :=
@@ -110,9 +134,10 @@ Fixpoint tsegs (t:row -> bool) (l:list row) : list (list row * row) :=
                else match tsegs t l' with (b, tr) :: ss => (r :: b, tr) :: ss | [] => [] end
   end.
 
-Definition Lparam : list relname := [RParam; RTag OParam; RAnno OParam].
-Definition Lstmt : list relname := [RStmt; RTag OStmt; RAnno OStmt].
-Definition Lfield : list relname := [RField; RTag OField; RAnno OField].
+Definition Lmeta (o:owner) : list relname := [RTag o; RAnno o; RSrcAnno o; RSrc o].
+Definition Lparam : list relname := RParam :: Lmeta OParam.
+Definition Lstmt : list relname := RStmt :: Lmeta OStmt.
+Definition Lfield : list relname := RField :: Lmeta OField.
 Definition Lelem : list relname := [RMixin; REp; REvent; RType; RView].
 
 Definition decode_param (s:list row * row) : pparam :=
@@ -136,9 +161,11 @@ Definition decode_def (body:list row) : pdef :=
 
 Definition decode_item (r:row) : pitem :=
   match r_rel r with
-  | RStmt => PRow (r_path r) (num 0 r) (nm 1 r) (r_ty r)
+  | RStmt => PRow (r_path r) (num 0 r) (nm 1 r) (r_x r)
   | RTag _ => PTag (r_path r) (nm 1 r)
-  | _ => PAnno (r_path r) (nm 1 r)
+  | RSrcAnno _ => PSrcAnno (r_path r) (nm 1 r) (r_x r)
+  | RSrc _ => PSrc (r_path r) (r_x r)
+  | _ => PAnno (r_path r) (nm 1 r) (r_x r)
   end.
 
 Definition decode_elem (s:row * list row) : pelem :=
@@ -163,6 +190,8 @@ Proof. destruct a, b; cbn; split; intros H; try reflexivity; try discriminate. Q
 Lemma relname_eqb_eq a b : relname_eqb a b = true <-> a = b.
 Proof.
   destruct a, b; cbn; try (split; intros H; [try reflexivity; discriminate|try reflexivity; discriminate]).
+  - rewrite owner_eqb_eq. split; [intros ->; reflexivity|intros [= ->]; reflexivity].
+  - rewrite owner_eqb_eq. split; [intros ->; reflexivity|intros [= ->]; reflexivity].
   - rewrite owner_eqb_eq. split; [intros ->; reflexivity|intros [= ->]; reflexivity].
   - rewrite owner_eqb_eq. split; [intros ->; reflexivity|intros [= ->]; reflexivity].
 Qed.
@@ -218,27 +247,33 @@ Proof.
 Qed.
 
 (* which relations each part of the walk emits *)
-Lemma allin_meta o a keys p zs at_ : allin [RTag o; RAnno o] (meta o a keys p zs at_) = true.
+Lemma allin_tag_rows o a keys p zs l : allin [RTag o] (map (fun t => mk (RTag o) a (keys ++ [t]) p zs TyNil) l) = true.
+Proof. apply (allin_map_rel _ (RTag o)); [reflexivity|]. destruct o; reflexivity. Qed.
+Lemma allin_anno_rows o a keys p zs l : allin [RAnno o; RSrcAnno o] (concat (map (anno_rows o a keys p zs) l)) = true.
+Proof. apply allin_concat_map. intros an. unfold anno_rows. destruct (an_srcs an); destruct o; reflexivity. Qed.
+Lemma allin_src_rows o a keys p zs l : allin [RSrc o] (src_rows o a keys p zs l) = true.
+Proof. unfold src_rows. destruct l; destruct o; reflexivity. Qed.
+Lemma sub_Lmeta o : sub [RTag o] (Lmeta o) = true /\ sub [RAnno o; RSrcAnno o] (Lmeta o) = true /\ sub [RSrc o] (Lmeta o) = true.
+Proof. destruct o; repeat split; reflexivity. Qed.
+Lemma allin_meta o a keys p zs at_ : allin (Lmeta o) (meta o a keys p zs at_) = true.
 Proof.
-  unfold meta. rewrite allin_app. apply andb_true_iff. split.
-  - apply (allin_map_rel _ (RTag o)); [reflexivity|]. cbn [existsb relname_eqb].
-    rewrite (proj2 (owner_eqb_eq o o) eq_refl). reflexivity.
-  - apply (allin_map_rel _ (RAnno o)); [reflexivity|]. cbn [existsb relname_eqb].
-    rewrite (proj2 (owner_eqb_eq o o) eq_refl). reflexivity.
+  unfold meta. destruct (sub_Lmeta o) as (H1 & H2 & H3). rewrite !allin_app.
+  rewrite (allin_mono _ _ _ H1 (allin_tag_rows _ _ _ _ _ _)), (allin_mono _ _ _ H2 (allin_anno_rows _ _ _ _ _ _)),
+          (allin_mono _ _ _ H3 (allin_src_rows _ _ _ _ _ _)). reflexivity.
 Qed.
 Lemma allin_param_rows a ep loc i p : allin Lparam (param_rows a ep loc i p) = true.
 Proof.
   unfold param_rows. destruct (p_type p) as [pt|]; [|reflexivity]. rewrite allin_app.
-  rewrite (allin_mono [RTag OParam; RAnno OParam] Lparam _ eq_refl (allin_meta OParam _ _ _ _ _)). reflexivity.
+  rewrite (allin_mono (Lmeta OParam) Lparam _ eq_refl (allin_meta OParam _ _ _ _ _)). reflexivity.
 Qed.
 Lemma allin_params_rows a ep loc ps : allin Lparam (params_rows a ep loc ps) = true.
 Proof. unfold params_rows. apply allin_concat_mapi. intros. apply allin_param_rows. Qed.
-Lemma allin_item_rows a ep its : allin Lstmt (map (item_row a ep) its) = true.
-Proof. induction its as [|[p c [t rt]|p t|p n] its IH]; [reflexivity| | |]; cbn [map allin forallb]; exact IH. Qed.
+Lemma allin_item_rows g a sa ep its : allin Lstmt (map (item_row g a sa ep) its) = true.
+Proof. induction its as [|[p c [t rt]|p t|p n v|p n l|p s0 l] its IH]; [reflexivity| | | | |]; cbn [map allin forallb]; exact IH. Qed.
 Lemma allin_field_rows a tn f : allin Lfield (field_rows a tn f) = true.
 Proof.
   unfold field_rows. cbn [allin forallb]. fold (allin Lfield (meta OField a [tn; f_name f] [] [] (f_attrs f))).
-  rewrite (allin_mono [RTag OField; RAnno OField] Lfield _ eq_refl (allin_meta OField _ _ _ _ _)). reflexivity.
+  rewrite (allin_mono (Lmeta OField) Lfield _ eq_refl (allin_meta OField _ _ _ _ _)). reflexivity.
 Qed.
 Lemma allin_fields_rows a tn fs : allin Lfield (concat (map (field_rows a tn) fs)) = true.
 Proof. apply allin_concat_map. intros. apply allin_field_rows. Qed.
@@ -288,48 +323,69 @@ Qed.
 Lemma last_snoc (keys:list name) t : last (keys ++ [t]) 1%positive = t.
 Proof. apply last_last. Qed.
 
-Lemma keep_map_same {A} L (f:A -> row) l : (forall t, relin L (f t) = true) -> keep L (map f l) = map f l.
-Proof. intros H. unfold keep. induction l as [|t l IH]; [reflexivity|]. cbn [map filter]. rewrite H, IH. reflexivity. Qed.
-Lemma keep_map_none {A} L (f:A -> row) l : (forall t, relin L (f t) = false) -> keep L (map f l) = [].
-Proof. intros H. unfold keep. induction l as [|t l IH]; [reflexivity|]. cbn [map filter]. rewrite H, IH. reflexivity. Qed.
-Lemma relin_tag_tag o a ns p zs : relin [RTag o] (mk (RTag o) a ns p zs TyNil) = true.
-Proof. unfold relin. cbn. rewrite (proj2 (owner_eqb_eq o o) eq_refl). reflexivity. Qed.
-Lemma relin_anno_anno o a ns p zs : relin [RAnno o] (mk (RAnno o) a ns p zs TyNil) = true.
-Proof. unfold relin. cbn. rewrite (proj2 (owner_eqb_eq o o) eq_refl). reflexivity. Qed.
+Lemma keep_none_sub La M L rs : allin La rs = true -> disj La M = true -> sub L M = true -> keep L rs = [].
+Proof.
+  intros Ha Hd Hs. induction rs as [|r rs IH]; [reflexivity|]. cbn [allin forallb] in Ha. apply andb_true_iff in Ha.
+  destruct Ha as [Hr Ha]. cbn [keep filter]. destruct (relin L r) eqn:E.
+  - pose proof (relin_sub _ _ _ Hs E) as E2. rewrite (relin_disj _ _ _ Hd Hr) in E2. discriminate.
+  - apply IH, Ha.
+Qed.
+
+Lemma decode_annos_rows o a keys p zs l :
+  decode_annos (concat (map (anno_rows o a keys p zs) l)) = map project_anno l.
+Proof.
+  unfold decode_annos.
+  assert (H : fold_right anno_step (None, []) (concat (map (anno_rows o a keys p zs) l)) = (None, map project_anno l)).
+  { induction l as [|an l IH]; [reflexivity|]. cbn [map concat]. rewrite fold_right_app, IH.
+    unfold anno_rows, project_anno. destruct (an_srcs an) as [|s0 l0]; cbn [fold_right anno_step r_rel mkx r_x];
+      unfold last_name; cbn [r_names mkx]; rewrite last_snoc; reflexivity. }
+  rewrite H. reflexivity.
+Qed.
 
 Lemma attrs_of_meta o a keys p zs at_ : attrs_of o (meta o a keys p zs at_) = cattrs at_.
 Proof.
   unfold attrs_of, meta, cattrs. rewrite !keep_app.
-  rewrite (keep_map_same [RTag o]) by (intros; apply relin_tag_tag).
-  rewrite (keep_map_none [RTag o]) by reflexivity.
-  rewrite (keep_map_none [RAnno o]) by reflexivity.
-  rewrite (keep_map_same [RAnno o]) by (intros; apply relin_anno_anno).
-  rewrite app_nil_r. cbn [List.app]. rewrite !map_map. unfold last_name. cbn [r_names mk].
-  f_equal; (erewrite map_ext; [apply map_id|intros x; apply last_snoc]).
+  rewrite (keep_all [RTag o] [RTag o] _ (allin_tag_rows _ _ _ _ _ _)) by (destruct o; reflexivity).
+  rewrite (keep_none [RAnno o; RSrcAnno o] [RTag o] _ (allin_anno_rows _ _ _ _ _ _)) by (destruct o; reflexivity).
+  rewrite (keep_none [RSrc o] [RTag o] _ (allin_src_rows _ _ _ _ _ _)) by (destruct o; reflexivity).
+  rewrite (keep_none [RTag o] [RAnno o; RSrcAnno o] _ (allin_tag_rows _ _ _ _ _ _)) by (destruct o; reflexivity).
+  rewrite (keep_all [RAnno o; RSrcAnno o] [RAnno o; RSrcAnno o] _ (allin_anno_rows _ _ _ _ _ _)) by (destruct o; reflexivity).
+  rewrite (keep_none [RSrc o] [RAnno o; RSrcAnno o] _ (allin_src_rows _ _ _ _ _ _)) by (destruct o; reflexivity).
+  rewrite (keep_none [RTag o] [RSrc o] _ (allin_tag_rows _ _ _ _ _ _)) by (destruct o; reflexivity).
+  rewrite (keep_none [RAnno o; RSrcAnno o] [RSrc o] _ (allin_anno_rows _ _ _ _ _ _)) by (destruct o; reflexivity).
+  rewrite (keep_all [RSrc o] [RSrc o] _ (allin_src_rows _ _ _ _ _ _)) by (destruct o; reflexivity).
+  rewrite !app_nil_r. cbn [List.app]. f_equal.
+  - rewrite map_map. unfold last_name. cbn [r_names mk]. erewrite map_ext; [apply map_id|intros x; apply last_snoc].
+  - apply decode_annos_rows.
+  - unfold src_rows, project_src. destruct (a_srcs at_); reflexivity.
 Qed.
 
 (* attributes of owner o among rows of other classes *)
-Lemma attrs_of_app o a b : attrs_of o (a ++ b) =
-  {| a_tags := a_tags (attrs_of o a) ++ a_tags (attrs_of o b); a_annos := a_annos (attrs_of o a) ++ a_annos (attrs_of o b) |}.
-Proof. unfold attrs_of. cbn [a_tags a_annos]. rewrite !keep_app, !map_app. reflexivity. Qed.
-Lemma attrs_of_none o L rs : allin L rs = true -> disj L [RTag o] = true -> disj L [RAnno o] = true -> attrs_of o rs = no_attrs.
-Proof. intros H H1 H2. unfold attrs_of. rewrite (keep_none _ _ _ H H1), (keep_none _ _ _ H H2). reflexivity. Qed.
-
-Lemma attrs_of_congr o x y : keep [RTag o] x = keep [RTag o] y -> keep [RAnno o] x = keep [RAnno o] y -> attrs_of o x = attrs_of o y.
-Proof. intros H1 H2. unfold attrs_of. rewrite H1, H2. reflexivity. Qed.
+Lemma attrs_of_pad o La Lb pre x post :
+  allin La pre = true -> disj La (Lmeta o) = true -> allin Lb post = true -> disj Lb (Lmeta o) = true ->
+  attrs_of o (pre ++ x ++ post) = attrs_of o x.
+Proof.
+  intros Ha Hda Hb Hdb. unfold attrs_of. rewrite !keep_app.
+  assert (S1 : sub [RTag o] (Lmeta o) = true) by (destruct o; reflexivity).
+  assert (S2 : sub [RAnno o; RSrcAnno o] (Lmeta o) = true) by (destruct o; reflexivity).
+  assert (S3 : sub [RSrc o] (Lmeta o) = true) by (destruct o; reflexivity).
+  rewrite (keep_none_sub _ _ _ _ Ha Hda S1), (keep_none_sub _ _ _ _ Ha Hda S2), (keep_none_sub _ _ _ _ Ha Hda S3).
+  rewrite (keep_none_sub _ _ _ _ Hb Hdb S1), (keep_none_sub _ _ _ _ Hb Hdb S2), (keep_none_sub _ _ _ _ Hb Hdb S3).
+  rewrite !app_nil_r. reflexivity.
+Qed.
 
 (* keep on the parts of a body *)
-Lemma keep_meta_other L o a keys p zs at_ : disj [RTag o; RAnno o] L = true -> keep L (meta o a keys p zs at_) = [].
+Lemma keep_meta_other L o a keys p zs at_ : disj (Lmeta o) L = true -> keep L (meta o a keys p zs at_) = [].
 Proof. intros H. eapply keep_none; [apply allin_meta|exact H]. Qed.
-Lemma keep_meta_self L o a keys p zs at_ : sub [RTag o; RAnno o] L = true -> keep L (meta o a keys p zs at_) = meta o a keys p zs at_.
+Lemma keep_meta_self L o a keys p zs at_ : sub (Lmeta o) L = true -> keep L (meta o a keys p zs at_) = meta o a keys p zs at_.
 Proof. intros H. eapply keep_all; [apply allin_meta|exact H]. Qed.
 Lemma keep_params_other L a ep loc ps : disj Lparam L = true -> keep L (params_rows a ep loc ps) = [].
 Proof. intros H. eapply keep_none; [apply allin_params_rows|exact H]. Qed.
 Lemma keep_params_self L a ep loc ps : sub Lparam L = true -> keep L (params_rows a ep loc ps) = params_rows a ep loc ps.
 Proof. intros H. eapply keep_all; [apply allin_params_rows|exact H]. Qed.
-Lemma keep_items_other L a ep its : disj Lstmt L = true -> keep L (map (item_row a ep) its) = [].
+Lemma keep_items_other L g a sa ep its : disj Lstmt L = true -> keep L (map (item_row g a sa ep) its) = [].
 Proof. intros H. eapply keep_none; [apply allin_item_rows|exact H]. Qed.
-Lemma keep_items_self L a ep its : sub Lstmt L = true -> keep L (map (item_row a ep) its) = map (item_row a ep) its.
+Lemma keep_items_self L g a sa ep its : sub Lstmt L = true -> keep L (map (item_row g a sa ep) its) = map (item_row g a sa ep) its.
 Proof. intros H. eapply keep_all; [apply allin_item_rows|exact H]. Qed.
 Lemma keep_fields_other L a tn fs : disj Lfield L = true -> keep L (concat (map (field_rows a tn) fs)) = [].
 Proof. intros H. eapply keep_none; [apply allin_fields_rows|exact H]. Qed.
@@ -433,7 +489,7 @@ Definition rest_rows (a:appname) (e:endpoint) : list row :=
   | Some (_, _, url, query) => params_rows a (e_name e) n_path url ++ params_rows a (e_name e) n_query query
   | None => []
   end.
-Definition ep_split (a:appname) (e:endpoint) : row * list row :=
+Definition ep_split (g:grammar) (a:appname) (sa:list str) (e:endpoint) : row * list row :=
   if e_pubsub e then
     (mk REvent a [e_name e] [] [] TyNil,
      params_rows a (e_name e) n_empty (e_params e) ++ meta OEvent a [e_name e] [] [] (e_attrs e))
@@ -445,7 +501,7 @@ Definition ep_split (a:appname) (e:endpoint) : row * list row :=
          [zb (match e_rest e with Some _ => true | None => false end); zb (match e_source e with Some _ => true | None => false end)]
          (match e_source e with Some (sa, _) => sa | None => [] end),
      meta OEp a [e_name e] [] [] (e_attrs e) ++ params_rows a (e_name e) n_empty (e_params e) ++ rest_rows a e ++
-     map (item_row a (e_name e)) (ep_items_pure (e_stmts e))).
+     map (item_row g a sa (e_name e)) (ep_items_pure (e_stmts e))).
 
 Lemma mixin_rows_split a m : mixin_rows a m = fst (mixin_split a m) :: snd (mixin_split a m).
 Proof. reflexivity. Qed.
@@ -453,32 +509,31 @@ Lemma view_rows_split a v : view_rows a v = fst (view_split a v) :: snd (view_sp
 Proof. reflexivity. Qed.
 Lemma type_rows_split a t : type_rows a t = fst (type_split a t) :: snd (type_split a t).
 Proof. reflexivity. Qed.
-Lemma ep_rows_split a e :
-  ep_rows CopyParent CopyParent a e = if ep_skipped e then [] else fst (ep_split a e) :: snd (ep_split a e).
+Lemma ep_rows_split g a sa e :
+  ep_rows CopyParent CopyParent g a sa e = if ep_skipped e then [] else fst (ep_split g a sa e) :: snd (ep_split g a sa e).
 Proof.
   unfold ep_rows, ep_split, rest_rows. destruct (ep_skipped e); [reflexivity|]. destruct (e_pubsub e); [reflexivity|].
   cbn [fst snd ep_items]. destruct (e_rest e) as [[[[mt pa] u] q]|]; reflexivity.
 Qed.
 
-Definition Lepbody : list relname :=
-  [RTag OEp; RAnno OEp; RTag OEvent; RAnno OEvent; RParam; RTag OParam; RAnno OParam; RStmt; RTag OStmt; RAnno OStmt].
-Definition Ltypebody : list relname := [RTable; RAlias; REnum; RField; RTag OField; RAnno OField; RTag OType; RAnno OType].
+Definition Lepbody : list relname := Lmeta OEp ++ Lmeta OEvent ++ Lparam ++ Lstmt.
+Definition Ltypebody : list relname := [RTable; RAlias; REnum] ++ Lfield ++ Lmeta OType.
 
 Lemma allin_rest_rows a e : allin Lparam (rest_rows a e) = true.
 Proof. unfold rest_rows. destruct (e_rest e) as [[[[mt pa] u] q]|]; [|reflexivity]. rewrite allin_app, !allin_params_rows. reflexivity. Qed.
 
-Lemma allin_ep_body a e : allin Lepbody (snd (ep_split a e)) = true.
+Lemma allin_ep_body g a sa e : allin Lepbody (snd (ep_split g a sa e)) = true.
 Proof.
   unfold ep_split. destruct (e_pubsub e); cbn [snd]; rewrite !allin_app.
   - rewrite (allin_mono Lparam Lepbody _ eq_refl (allin_params_rows _ _ _ _)).
-    rewrite (allin_mono [RTag OEvent; RAnno OEvent] Lepbody _ eq_refl (allin_meta _ _ _ _ _ _)). reflexivity.
-  - rewrite (allin_mono [RTag OEp; RAnno OEp] Lepbody _ eq_refl (allin_meta _ _ _ _ _ _)).
+    rewrite (allin_mono (Lmeta OEvent) Lepbody _ eq_refl (allin_meta _ _ _ _ _ _)). reflexivity.
+  - rewrite (allin_mono (Lmeta OEp) Lepbody _ eq_refl (allin_meta _ _ _ _ _ _)).
     rewrite (allin_mono Lparam Lepbody _ eq_refl (allin_params_rows _ _ _ _)).
     rewrite (allin_mono Lparam Lepbody _ eq_refl (allin_rest_rows _ _)).
-    rewrite (allin_mono Lstmt Lepbody _ eq_refl (allin_item_rows _ _ _)). reflexivity.
+    rewrite (allin_mono Lstmt Lepbody _ eq_refl (allin_item_rows _ _ _ _ _)). reflexivity.
 Qed.
 
-Definition Ldef : list relname := [RTable; RAlias; REnum; RField; RTag OField; RAnno OField].
+Definition Ldef : list relname := [RTable; RAlias; REnum] ++ Lfield.
 Lemma allin_def_rows a t : allin Ldef (def_rows a t) = true.
 Proof.
   unfold def_rows. destruct (t_def t) as [fs|pk fs|mt|items|]; try reflexivity.
@@ -489,7 +544,7 @@ Qed.
 Lemma allin_type_body a t : allin Ltypebody (snd (type_split a t)) = true.
 Proof.
   unfold type_split. cbn [snd]. rewrite allin_app, (allin_mono Ldef Ltypebody _ eq_refl (allin_def_rows _ _)).
-  rewrite (allin_mono [RTag OType; RAnno OType] Ltypebody _ eq_refl (allin_meta _ _ _ _ _ _)). reflexivity.
+  rewrite (allin_mono (Lmeta OType) Ltypebody _ eq_refl (allin_meta _ _ _ _ _ _)). reflexivity.
 Qed.
 
 (* decoding one element *)
@@ -504,27 +559,29 @@ Proof.
   f_equal.
   - apply (decode_def_rows a t).
   - rewrite <- (attrs_of_meta OType a [t_name t] [] [] (t_attrs t)).
-    apply attrs_of_congr; rewrite keep_app.
-    + rewrite (keep_none Ldef [RTag OType] _ (allin_def_rows a t) eq_refl). reflexivity.
-    + rewrite (keep_none Ldef [RAnno OType] _ (allin_def_rows a t) eq_refl). reflexivity.
+    rewrite <- (app_nil_r (meta OType a [t_name t] [] [] (t_attrs t))) at 1.
+    apply (attrs_of_pad OType Ldef [] _ _ [] (allin_def_rows a t)); reflexivity.
 Qed.
 
-Lemma map_decode_items a ep its : map decode_item (map (item_row a ep) its) = map (project_item a) its.
-Proof. rewrite map_map. apply map_ext. intros [p c [t rt]|p t|p n]; reflexivity. Qed.
+Lemma map_decode_items g a sa ep its : map decode_item (map (item_row g a sa ep) its) = map (project_item g sa) its.
+Proof. rewrite map_map. apply map_ext. intros [p c [t rt]|p t|p n v|p n l|p s0 l]; reflexivity. Qed.
 
-Lemma decode_ep a e : decode_elem (ep_split a e) = project_ep a e.
+Lemma decode_ep g a sa e : decode_elem (ep_split g a sa e) = project_ep g a sa e.
 Proof.
   unfold ep_split, project_ep. destruct (e_pubsub e); unfold decode_elem; cbn [r_rel mk mk2 r_names r_nums r_app2 nm nth].
   - f_equal.
     + unfold decode_params. rewrite keep_app, (keep_params_self Lparam), (keep_meta_other Lparam) by reflexivity.
       rewrite decode_params_rows. cbn [tsegs map]. apply app_nil_r.
     + rewrite <- (attrs_of_meta OEvent a [e_name e] [] [] (e_attrs e)).
-      apply attrs_of_congr; rewrite keep_app, keep_params_other by reflexivity; reflexivity.
+      rewrite <- (app_nil_r (meta OEvent a [e_name e] [] [] (e_attrs e))) at 1.
+      apply (attrs_of_pad OEvent Lparam [] _ _ [] (allin_params_rows _ _ _ _)); reflexivity.
   - f_equal.
     + rewrite <- (attrs_of_meta OEp a [e_name e] [] [] (e_attrs e)).
-      apply attrs_of_congr; rewrite !keep_app, keep_params_other, keep_items_other by reflexivity.
-      * rewrite (keep_none Lparam [RTag OEp] _ (allin_rest_rows a e) eq_refl). rewrite !app_nil_r. reflexivity.
-      * rewrite (keep_none Lparam [RAnno OEp] _ (allin_rest_rows a e) eq_refl). rewrite !app_nil_r. reflexivity.
+      apply (attrs_of_pad OEp [] (Lparam ++ Lstmt) [] _ _ eq_refl eq_refl); [|reflexivity].
+      rewrite !allin_app.
+      rewrite (allin_mono Lparam (Lparam ++ Lstmt) _ eq_refl (allin_params_rows _ _ _ _)).
+      rewrite (allin_mono Lparam (Lparam ++ Lstmt) _ eq_refl (allin_rest_rows _ _)).
+      rewrite (allin_mono Lstmt (Lparam ++ Lstmt) _ eq_refl (allin_item_rows _ _ _ _ _)). reflexivity.
     + unfold decode_params. rewrite !keep_app, (keep_meta_other Lparam), (keep_params_self Lparam), (keep_items_other Lparam) by reflexivity.
       rewrite (keep_all Lparam Lparam _ (allin_rest_rows a e) eq_refl). cbn [List.app]. rewrite app_nil_r.
       rewrite decode_params_rows. f_equal. unfold rest_rows.
@@ -542,21 +599,21 @@ Proof.
   destruct (p x); reflexivity.
 Qed.
 
-Definition elem_rows (ap:app) : list row :=
+Definition elem_rows (g:grammar) (ap:app) : list row :=
   let a := ap_name ap in
   concat (map (mixin_rows a) (ap_mixins ap)) ++
-  concat (map (ep_rows CopyParent CopyParent a) (sorted_by e_name (ap_eps ap))) ++
+  concat (map (ep_rows CopyParent CopyParent g a (ap_sname ap)) (sorted_by e_name (ap_eps ap))) ++
   concat (map (type_rows a) (sorted_by t_name (ap_types ap))) ++
   concat (map (view_rows a) (sorted_by v_name (ap_views ap))).
 
-Lemma segs_elem_rows ap :
+Lemma segs_elem_rows g ap :
   let a := ap_name ap in
-  segs (relin Lelem) (elem_rows ap) =
-  ([], map (mixin_split a) (ap_mixins ap) ++ map (ep_split a) (filter visible_ep (sorted_by e_name (ap_eps ap))) ++
+  segs (relin Lelem) (elem_rows g ap) =
+  ([], map (mixin_split a) (ap_mixins ap) ++ map (ep_split g a (ap_sname ap)) (filter visible_ep (sorted_by e_name (ap_eps ap))) ++
        map (type_split a) (sorted_by t_name (ap_types ap)) ++ map (view_split a) (sorted_by v_name (ap_views ap))).
 Proof.
-  cbv zeta. unfold elem_rows. set (a := ap_name ap).
-  rewrite (concat_map_filter (ep_rows CopyParent CopyParent a) (fun e => fst (ep_split a e) :: snd (ep_split a e)) visible_ep).
+  cbv zeta. unfold elem_rows. set (a := ap_name ap). set (sa := ap_sname ap).
+  rewrite (concat_map_filter (ep_rows CopyParent CopyParent g a sa) (fun e => fst (ep_split g a sa e) :: snd (ep_split g a sa e)) visible_ep).
   2:{ intros e. rewrite ep_rows_split. unfold visible_ep. destruct (ep_skipped e); reflexivity. }
   assert (H4 : segs (relin Lelem) (concat (map (view_rows a) (sorted_by v_name (ap_views ap))) ++ []) =
                ([], map (view_split a) (sorted_by v_name (ap_views ap)) ++ [])).
@@ -570,12 +627,12 @@ Proof.
     - rewrite H4. reflexivity.
     - intros t. eapply no_header; [apply allin_type_body|reflexivity].
     - rewrite H4. reflexivity. }
-  assert (H2 : segs (relin Lelem) (concat (map (fun e => fst (ep_split a e) :: snd (ep_split a e)) (filter visible_ep (sorted_by e_name (ap_eps ap)))) ++
+  assert (H2 : segs (relin Lelem) (concat (map (fun e => fst (ep_split g a sa e) :: snd (ep_split g a sa e)) (filter visible_ep (sorted_by e_name (ap_eps ap)))) ++
                                    concat (map (type_rows a) (sorted_by t_name (ap_types ap))) ++
                                    concat (map (view_rows a) (sorted_by v_name (ap_views ap)))) =
-               ([], map (ep_split a) (filter visible_ep (sorted_by e_name (ap_eps ap))) ++
+               ([], map (ep_split g a sa) (filter visible_ep (sorted_by e_name (ap_eps ap))) ++
                     map (type_split a) (sorted_by t_name (ap_types ap)) ++ map (view_split a) (sorted_by v_name (ap_views ap)))).
-  { rewrite (segs_concat (relin Lelem) (fun e => fst (ep_split a e) :: snd (ep_split a e)) (ep_split a)); try reflexivity.
+  { rewrite (segs_concat (relin Lelem) (fun e => fst (ep_split g a sa e) :: snd (ep_split g a sa e)) (ep_split g a sa)); try reflexivity.
     - rewrite H3. reflexivity.
     - intros e. unfold ep_split. destruct (e_pubsub e); reflexivity.
     - intros e. eapply no_header; [apply allin_ep_body|reflexivity].
@@ -586,16 +643,16 @@ Proof.
   - rewrite H2. reflexivity.
 Qed.
 
-Definition app_split (ap:app) : row * list row :=
-  (mk RApp (ap_name ap) [ap_long ap; ap_doc ap] [] [] TyNil, meta OApp (ap_name ap) [] [] [] (ap_attrs ap) ++ elem_rows ap).
-Lemma app_rows_split ap : app_rows CopyParent CopyParent ap = fst (app_split ap) :: snd (app_split ap).
+Definition app_split (g:grammar) (ap:app) : row * list row :=
+  (mk RApp (ap_name ap) [ap_long ap; ap_doc ap] [] [] TyNil, meta OApp (ap_name ap) [] [] [] (ap_attrs ap) ++ elem_rows g ap).
+Lemma app_rows_split g ap : app_rows CopyParent CopyParent g ap = fst (app_split g ap) :: snd (app_split g ap).
 Proof. reflexivity. Qed.
 
-Lemma rebuild_app_split ap : rebuild_app (app_split ap) = project_app ap.
+Lemma rebuild_app_split g ap : rebuild_app (app_split g ap) = project_app g ap.
 Proof.
   unfold app_split, rebuild_app.
   rewrite (segs_nohdr (relin Lelem)) by (eapply no_header; [apply allin_meta|reflexivity]).
-  pose proof (segs_elem_rows ap) as H. cbv zeta in H. rewrite H. cbn [fst snd]. rewrite app_nil_r.
+  pose proof (segs_elem_rows g ap) as H. cbv zeta in H. rewrite H. cbn [fst snd]. rewrite app_nil_r.
   unfold project_app. cbn [r_app mk r_names nm nth]. rewrite attrs_of_meta. f_equal.
   rewrite !map_app, !map_map. f_equal; [|f_equal; [|f_equal]]; apply map_ext; intros x.
   - apply decode_mixin.
@@ -607,53 +664,75 @@ Qed.
 (* ---------- the whole module ---------- *)
 Definition Lnonapp : list relname :=
   [RMixin; REp; REvent; RParam; RStmt; RType; RTable; RField; REnum; RAlias; RView]
-  ++ map RTag all_owners ++ map RAnno all_owners.
+  ++ map RTag all_owners ++ map RAnno all_owners ++ map RSrc all_owners ++ map RSrcAnno all_owners.
 
-Lemma allin_app_body ap : allin Lnonapp (snd (app_split ap)) = true.
+Lemma allin_app_body g ap : allin Lnonapp (snd (app_split g ap)) = true.
 Proof.
   unfold app_split, elem_rows. cbn [snd]. rewrite !allin_app.
-  rewrite (allin_mono [RTag OApp; RAnno OApp] Lnonapp _ eq_refl (allin_meta _ _ _ _ _ _)).
+  rewrite (allin_mono (Lmeta OApp) Lnonapp _ eq_refl (allin_meta _ _ _ _ _ _)).
   rewrite !allin_concat_map; [reflexivity| | | |].
   - intros v. rewrite view_rows_split. cbn [allin forallb]. fold (allin Lnonapp (snd (view_split (ap_name ap) v))).
-    unfold view_split. cbn [snd fst]. rewrite (allin_mono [RTag OView; RAnno OView] Lnonapp _ eq_refl (allin_meta _ _ _ _ _ _)). reflexivity.
+    unfold view_split. cbn [snd fst]. rewrite (allin_mono (Lmeta OView) Lnonapp _ eq_refl (allin_meta _ _ _ _ _ _)). reflexivity.
   - intros t. rewrite type_rows_split. cbn [allin forallb]. fold (allin Lnonapp (snd (type_split (ap_name ap) t))).
     rewrite (allin_mono Ltypebody Lnonapp _ eq_refl (allin_type_body _ _)). reflexivity.
   - intros e. rewrite ep_rows_split. destruct (ep_skipped e); [reflexivity|]. cbn [allin forallb].
-    fold (allin Lnonapp (snd (ep_split (ap_name ap) e))).
-    rewrite (allin_mono Lepbody Lnonapp _ eq_refl (allin_ep_body _ _)).
+    fold (allin Lnonapp (snd (ep_split g (ap_name ap) (ap_sname ap) e))).
+    rewrite (allin_mono Lepbody Lnonapp _ eq_refl (allin_ep_body _ _ _ _)).
     unfold ep_split. destruct (e_pubsub e); reflexivity.
   - intros m. rewrite mixin_rows_split. cbn [allin forallb]. fold (allin Lnonapp (snd (mixin_split (ap_name ap) m))).
-    unfold mixin_split. cbn [snd fst]. rewrite (allin_mono [RTag OMixin; RAnno OMixin] Lnonapp _ eq_refl (allin_meta _ _ _ _ _ _)). reflexivity.
+    unfold mixin_split. cbn [snd fst]. rewrite (allin_mono (Lmeta OMixin) Lnonapp _ eq_refl (allin_meta _ _ _ _ _ _)). reflexivity.
 Qed.
 
-Theorem rows_lossless m rs : normalize CopyParent CopyParent m = Rows rs -> rebuild rs = project m.
+Theorem rows_lossless g m rs : normalize CopyParent CopyParent g m = Rows rs -> rebuild rs = project g m.
 Proof.
-  unfold normalize. destruct (module_bad m); [discriminate|]. intros [= <-]. unfold rebuild, project.
+  unfold normalize. destruct (module_fault g m) as [[|]|]; [discriminate|discriminate|]. intros [= <-]. unfold rebuild, project.
   rewrite <- (app_nil_r (concat _)).
-  rewrite (segs_concat (relin [RApp]) (app_rows CopyParent CopyParent) app_split); try reflexivity.
+  rewrite (segs_concat (relin [RApp]) (app_rows CopyParent CopyParent g) (app_split g)); try reflexivity.
   - cbn [snd segs]. rewrite app_nil_r, map_map. apply map_ext. intros ap. apply rebuild_app_split.
   - intros ap. eapply no_header; [apply allin_app_body|reflexivity].
 Qed.
 
 (* two modules with the same rows have the same projection: nothing `project` keeps is lost in the rows *)
-Corollary rows_determine_projection m1 m2 rs :
-  normalize CopyParent CopyParent m1 = Rows rs -> normalize CopyParent CopyParent m2 = Rows rs -> project m1 = project m2.
-Proof. intros H1 H2. rewrite <- (rows_lossless _ _ H1), <- (rows_lossless _ _ H2). reflexivity. Qed.
+Corollary rows_determine_projection g m1 m2 rs :
+  normalize CopyParent CopyParent g m1 = Rows rs -> normalize CopyParent CopyParent g m2 = Rows rs -> project g m1 = project g m2.
+Proof. intros H1 H2. rewrite <- (rows_lossless _ _ _ H1), <- (rows_lossless _ _ _ H2). reflexivity. Qed.
 
-(* non-vacuity: a concrete module; its projection keeps field names, types, optionality and reference targets apart *)
+(* non-vacuity: a concrete module with a typed return payload, annotation values and source contexts; its projection
+   keeps field types / optionality / reference targets, annotation values, source positions and the payload's status,
+   type target and attributes apart *)
+Definition ex_g : grammar :=
+  {| g_prim_mode := PrimWord; g_prims := [bytes "int64"; bytes "int"; bytes "string"]; g_mods := ModsSorted; g_dup := DupRefused |}.
+Definition ex_sc (line:N) : srcctx := {| sc_file := 70%positive; sc_pos := [line; 1; line; 9]%N |}.
+Definition ex_an (v:aval) : anno := {| an_name := 60%positive; an_val := v; an_srcs := [ex_sc 3] |}.
+Definition ex_at (v:aval) (line:N) : attrs := {| a_tags := [50%positive]; a_annos := [ex_an v]; a_srcs := [ex_sc line] |}.
 Definition ex_fa (n:positive) (t:mtype) (o:bool) : field :=
   {| f_name := n; f_ty := t; f_opt := o; f_constraints := [{| c_len := Some (1, 9)%Z; c_prec := 0%Z; c_scale := 0%Z |}];
-     f_attrs := {| a_tags := [50%positive]; a_annos := [61%positive; 60%positive] |} |}.
-Definition ex_mod (t:mtype) (o:bool) : module :=
-  [{| ap_name := [8%positive]; ap_long := 9%positive; ap_doc := 9%positive; ap_attrs := no_attrs; ap_mixins := [];
-      ap_eps := []; ap_views := [];
-      ap_types := [{| t_name := 10%positive; t_doc := 9%positive; t_opt := false; t_attrs := no_attrs;
+     f_attrs := ex_at (AVStr 61%positive) 4 |}.
+Definition ex_mod (t:mtype) (o:bool) (v:aval) (line:N) (payload:string) : module :=
+  [{| ap_name := [8%positive]; ap_sname := [bytes "App"]; ap_long := 9%positive; ap_doc := 9%positive;
+      ap_attrs := ex_at v line; ap_mixins := []; ap_views := [];
+      ap_eps := [{| e_name := 12%positive; e_long := 9%positive; e_doc := 9%positive; e_pubsub := false; e_source := None;
+                    e_rest := None; e_params := []; e_attrs := ex_at v 5;
+                    e_stmts := [SLeaf (LRet (bytes payload)) 9%positive (ex_at v 6)] |}];
+      ap_types := [{| t_name := 10%positive; t_doc := 9%positive; t_opt := false; t_attrs := ex_at v 7;
                       t_def := DTuple [ex_fa 21 t o; ex_fa 20 (MSeq (MRef None None [30%positive])) false] |}] |}].
+Definition ex_p (t:mtype) (o:bool) (v:aval) (line:N) (payload:string) := project ex_g (ex_mod t o v line payload).
 Example rows_lossless_nonvacuous :
-  (exists rs, normalize CopyParent CopyParent (ex_mod (MPrim 40%positive) true) = Rows rs /\ rebuild rs = project (ex_mod (MPrim 40%positive) true)) /\
-  project (ex_mod (MPrim 40%positive) true) <> project (ex_mod (MPrim 41%positive) true) /\
-  project (ex_mod (MPrim 40%positive) true) <> project (ex_mod (MPrim 40%positive) false) /\
-  project (ex_mod (MRef None None [30%positive]) true) <> project (ex_mod (MRef (Some [7%positive]) None [30%positive]) true).
+  let p0 := ex_p (MPrim 40%positive) true (AVInt 7) 2 "ok <: sequence of T [~m, k=""v""]" in
+  (exists rs, normalize CopyParent CopyParent ex_g (ex_mod (MPrim 40%positive) true (AVInt 7) 2 "ok <: sequence of T [~m, k=""v""]") = Rows rs /\
+              rebuild rs = p0) /\
+  p0 <> ex_p (MPrim 41%positive) true (AVInt 7) 2 "ok <: sequence of T [~m, k=""v""]" /\
+  p0 <> ex_p (MPrim 40%positive) false (AVInt 7) 2 "ok <: sequence of T [~m, k=""v""]" /\
+  p0 <> ex_p (MPrim 40%positive) true (AVInt 8) 2 "ok <: sequence of T [~m, k=""v""]" /\
+  p0 <> ex_p (MPrim 40%positive) true (AVArr [AVInt 7]) 2 "ok <: sequence of T [~m, k=""v""]" /\
+  p0 <> ex_p (MPrim 40%positive) true (AVInt 7) 3 "ok <: sequence of T [~m, k=""v""]" /\
+  p0 <> ex_p (MPrim 40%positive) true (AVInt 7) 2 "error <: sequence of T [~m, k=""v""]" /\
+  p0 <> ex_p (MPrim 40%positive) true (AVInt 7) 2 "ok <: sequence of Other.T [~m, k=""v""]" /\
+  p0 <> ex_p (MPrim 40%positive) true (AVInt 7) 2 "ok <: set of T [~m, k=""v""]" /\
+  p0 <> ex_p (MPrim 40%positive) true (AVInt 7) 2 "ok <: sequence of T [~n, k=""v""]" /\
+  p0 <> ex_p (MPrim 40%positive) true (AVInt 7) 2 "ok <: sequence of T [~m, k=""w""]" /\
+  ex_p (MRef None None [30%positive]) true (AVInt 7) 2 "ok" <> ex_p (MRef (Some [7%positive]) None [30%positive]) true (AVInt 7) 2 "ok".
 Proof.
-  split; [eexists; split; [reflexivity|vm_compute; reflexivity]|]. repeat split; vm_compute; discriminate.
+  cbv zeta. split; [eexists; split; [vm_compute; reflexivity|vm_compute; reflexivity]|].
+  repeat split; vm_compute; discriminate.
 Qed.
